@@ -644,23 +644,21 @@ func (e *Extractor) showText(data []byte) {
 
 	e.fragments = append(e.fragments, fragment)
 
-	// Update text position (use original byte length)
-	// Use the calculated width to update the graphics state
-	// Note: width is already scaled by font size, but we need to check if it includes horizontal scaling
-	// The GetStringWidth returns width in 1000ths of em.
-	// width = f.GetStringWidth(decodedText) * fontSize / 1000.0
-	// Horizontal scaling is applied in ShowTextWithWidth if we pass the raw width?
-	// No, ShowTextWithWidth expects the width in user space.
-	// Our 'width' variable is: GetStringWidth * fontSize / 1000.0
-	// We should apply horizontal scaling to it before passing, or let ShowTextWithWidth handle it?
-	// ShowTextWithWidth adds Tc and Tw scaled by Th.
-	// It assumes 'width' is the glyph width.
-	// We should apply horizontal scaling to 'width' here because GetStringWidth doesn't know about Th.
-
+	// Update the text position: Tm = T(tx, 0) x Tm (ISO 32000-1 9.4.4). The
+	// displacement tx is in text space, so it is computed from the font size
+	// Tf set (not the effective size, which already contains the scale of the
+	// text matrix) and scaled by the horizontal scaling; ShowTextWithWidth adds
+	// character and word spacing and moves the text matrix along its own x
+	// axis, which keeps scaled and rotated text on its baseline.
 	hScale := e.gs.Text.HorizontalScaling / 100.0
-	scaledWidth := width * hScale
+	textWidth := 0.0
+	if f != nil {
+		textWidth = f.GetStringWidth(decodedText) * e.gs.GetFontSize() / 1000.0
+	} else {
+		textWidth = float64(len(decodedText)) * e.gs.GetFontSize() * 0.5
+	}
 
-	e.gs.ShowTextWithWidth(string(data), scaledWidth)
+	e.gs.ShowTextWithWidth(string(data), textWidth*hScale)
 }
 
 // showTextArray processes a text array showing operation (TJ).
@@ -681,12 +679,13 @@ func (e *Extractor) showTextArray(arr core.Array) {
 
 			// Update the text matrix only: the text line matrix, which Td,
 			// TD, T*, ' and " move relative to, is not changed by a TJ
-			// adjustment (ISO 32000-1 9.4.3, 9.4.4)
-			e.gs.Text.TextMatrix[4] += adjustment
+			// adjustment (ISO 32000-1 9.4.3, 9.4.4). The adjustment is a
+			// displacement in text space: Tm = T(tx, 0) x Tm
+			e.gs.AdvanceText(adjustment)
 		case core.Real:
 			hScale := e.gs.Text.HorizontalScaling / 100.0
 			adjustment := -float64(v) * e.gs.GetFontSize() * hScale / 1000.0
-			e.gs.Text.TextMatrix[4] += adjustment
+			e.gs.AdvanceText(adjustment)
 		}
 	}
 }
